@@ -134,6 +134,22 @@ CHECKS["C10"] = dict(category="model_checking", text=_HUB_TEXT + " C10: Complete
     technique="TLA+ refinement model with kill (TLC) + deterministic scheduling of real server processes with a byte-exact snapshot after every step",
     note="content classes by byte comparison with the known complete contents (A8)", engine="S")
 
+CHECKS["C11"] = dict(category="model_checking",
+    text="TLC checks the guard (Refused) against the kernel's walk of ROOT/<path> - also for the staging and conflict-copy siblings - on every "
+         "path of <= 4 components over {'', '.', '..', name, '..name', 'name..', '...', long} with/without a leading slash; each path is sent "
+         "as Get, Put (with content) and Delete to a real server whose every file call is logged by the shim (roots '/'); TLC decides "
+         "each record: no successful call outside ROOT, sentinels unchanged, refused paths answer 'bad path', create nothing and leave the "
+         "probe replies equal to a fresh session's; refused-set conformance.",
+    design_ref="5 (C11), A6", technique="TLA+ path-walk model (TLC exhaustive over component sequences) + replay of every path into a real server under a logging libc shim + TLC record validation",
+    note="effect-based (A6); served tree without symlinks; start-up calls whitelisted by calibration", engine="S")
+CHECKS["C12"] = dict(category="model_checking",
+    text="TLC enumerates every session of <= 3 pieces over 4 prologue classes x 22 piece classes with the predicted replies, exit status and "
+         "final tree; sessions are rendered to bytes and fed to a real server under RLIMIT_AS and a timeout (oversize/huge/deep pieces under "
+         "strace: no anonymous mapping above the 1 MiB bound beyond a calibration session), also cut at random points and byte-mutated; "
+         "TLC decides each record (Conform = prediction; Monitor = exit 0/1, no signal/hang, no effect before a valid request, in step).",
+    design_ref="5 (C12), 4.6", technique="TLA+ byte-stream session machine (TLC exhaustive over piece classes) + replay into a real server + TLC record validation",
+    note="memory clause by observation (RLIMIT_AS, strace of mmap sizes vs calibration); error texts compared only for conformance", engine="E")
+
 NOT_BUILT = "check not built yet in this round (planned in DESIGN.md section 5)"
 
 
